@@ -13,6 +13,64 @@ import sys
 HERE = os.path.dirname(os.path.dirname(os.path.abspath(__file__)))
 sys.path.insert(0, HERE)
 
+
+def install_process_environment(penv):
+    """Per-process environment skew chosen by the scheduler, installed before anything of
+    the repository is imported: a simulated clock (own epoch and own tick per reading, so
+    both dates and elapsed times differ between processes), time zone, working directory
+    and the identity variables of the environment.  Output must not depend on any of it."""
+    import datetime as _dt
+    import time as _time
+    for k, v in penv.get("environ", {}).items():
+        os.environ[k] = v
+    if "TZ" in penv.get("environ", {}):
+        _time.tzset()
+    if penv.get("cwd"):
+        os.chdir(penv["cwd"])
+    state = {"now": float(penv["epoch"]), "tick": float(penv["tick"])}
+    real_localtime, real_gmtime, real_strftime = _time.localtime, _time.gmtime, _time.strftime
+    real_ctime, real_asctime = _time.ctime, _time.asctime
+
+    def now():
+        state["now"] += state["tick"]
+        return state["now"]
+    _time.time = now
+    _time.time_ns = lambda: int(now() * 1e9)
+    _time.monotonic = _time.perf_counter = _time.process_time = lambda: now() - float(penv["epoch"])
+    _time.monotonic_ns = _time.perf_counter_ns = _time.process_time_ns = \
+        lambda: int((now() - float(penv["epoch"])) * 1e9)
+    _time.localtime = lambda secs=None: real_localtime(now() if secs is None else secs)
+    _time.gmtime = lambda secs=None: real_gmtime(now() if secs is None else secs)
+    _time.ctime = lambda secs=None: real_ctime(now() if secs is None else secs)
+    _time.asctime = lambda t=None: real_asctime(_time.localtime() if t is None else t)
+    _time.strftime = lambda fmt, t=None: real_strftime(fmt, _time.localtime() if t is None else t)
+    _time.sleep = lambda secs: state.__setitem__("now", state["now"] + max(0.0, secs))
+
+    class SimDateTime(_dt.datetime):
+        @classmethod
+        def now(cls, tz=None):
+            return cls.fromtimestamp(now(), tz)
+
+        @classmethod
+        def utcnow(cls):
+            return cls.fromtimestamp(now(), _dt.timezone.utc).replace(tzinfo=None)
+
+        @classmethod
+        def today(cls):
+            return cls.fromtimestamp(now())
+
+    class SimDate(_dt.date):
+        @classmethod
+        def today(cls):
+            return cls.fromtimestamp(now())
+    _dt.datetime = SimDateTime
+    _dt.date = SimDate
+
+
+hist = json.load(sys.stdin)
+if hist.get("penv"):
+    install_process_environment(hist["penv"])
+
 import sim  # noqa: E402
 
 sim.use_repo()
@@ -81,7 +139,6 @@ OPS = {"convert": op_convert, "cli": op_cli, "decode": op_decode}
 
 
 def main():
-    hist = json.load(sys.stdin)
     deccheck.warm()
     import coco.b09.compiler  # noqa
     import coco.decb_to_b09  # noqa
